@@ -446,7 +446,8 @@ def _build(spec):
     if n["kind"] == "text":
       return m.Text(doc, n["text"])
     e = KINDS[n["kind"]](doc)
-    e.set_id(n["id"])
+    if not n.get("anon"):      # "anon": the element carries no xml:id in the document (its id only names it inside the DocSpec)
+      e.set_id(n["id"])
     e.set_space(m.WhiteSpaceHandling(n["space"]))
     e.set_lang(n["lang"])
     if n["kind"] != "br":
